@@ -121,6 +121,7 @@ type Exec struct {
 	assumed  map[*Term]bool
 	curState *State
 	axioms   []*Term // facts about the entry state only (always included)
+	ifaceBounds []ifaceBound
 }
 
 type Frame struct {
@@ -933,6 +934,8 @@ func (ex *Exec) noteLoaded(t *Term, typ types.Type, st *State, reach *Term) {
 		ex.assume(Implies(reach, ex.sliceWF(t, st)))
 	case *types.Map:
 		ex.assume(Implies(reach, And(Le(IntLit(0), t), Lt(t, st.alloc))))
+	case *types.Interface:
+		ex.ifaceBounds = append(ex.ifaceBounds, ifaceBound{t, st.alloc, reach})
 	case *types.Struct:
 		// struct values containing pointers: handled field-wise on demand
 		si := ex.V.structOf(typ)
@@ -968,6 +971,36 @@ func (ex *Exec) ptrBound(t *Term, typ types.Type, alloc *Term) *Term {
 		return And(cs...)
 	}
 	return True
+}
+
+type ifaceBound struct {
+	t     *Term
+	alloc *Term
+	reach *Term
+}
+
+// ifaceAxioms: payload pointers of interface values are allocated (generated lazily, once the
+// set of dynamic types mentioned in the VC is known).
+func (ex *Exec) ifaceAxioms() []*Term {
+	var names []string
+	for n := range boxTypes {
+		names = append(names, n)
+	}
+	sort.Strings(names)
+	var out []*Term
+	for _, ib := range ex.ifaceBounds {
+		for _, n := range names {
+			typ := boxTypes[n]
+			if _, isIface := typ.Underlying().(*types.Interface); isIface {
+				continue
+			}
+			b := ex.ptrBound(Unbox(n, ex.V.sortOf(typ), ib.t), typ, ib.alloc)
+			if b != True {
+				out = append(out, Implies(And(ib.reach, IsBox(n, ib.t)), b))
+			}
+		}
+	}
+	return out
 }
 
 // closureAxiom: all pointers stored in heap component comp (array term h) are allocated below alloc.
